@@ -264,6 +264,8 @@ pub fn prop(tier: Tier, seed: u64) -> Prop {
                         continue;
                     }
                     let be = b2[(pi + ki + idx as usize) % b2.len()];
+                    // same kind, same back-end, other sentinel: must be bit-identical for every type
+                    let mut first_fill: Option<Raw> = None;
                     for sentinel in [0x5Au8, 0xA5] {
                         let md = mul_div(be);
                         let mp = mapper((idx as usize + pi) % 2);
@@ -314,6 +316,16 @@ pub fn prop(tier: Tier, seed: u64) -> Prop {
                         }
                         if out.dirty > 0 {
                             ctx.violation(tag("bytes outside the destination rectangle changed"), || det(json!({"dirty_bytes": out.dirty, "first_offset": out.first_dirty})));
+                        }
+                        match &first_fill {
+                            None => first_fill = Some(out.rect.clone()),
+                            Some(f) => {
+                                if f.bytes() != out.rect.bytes() {
+                                    ctx.violation(tag("result depends on what the destination held before (stale component or pixel)"), || {
+                                        det(json!({"with_fill_0x5A": f.bytes().iter().take(48).collect::<Vec<_>>(), "with_fill_0xA5": out.rect.bytes().iter().take(48).collect::<Vec<_>>()}))
+                                    });
+                                }
+                            }
                         }
                         let exact = pt.ck().is_int() && !(pt.ck() == CK::U16 && (opk == 1 || opk == 3));
                         match &base {
